@@ -682,7 +682,7 @@ def run_reexport_sound(ctx: Ctx) -> None:
     reqs, pay = [], []
     # --- ShapeGen: models + real systems
     shape = []
-    for _ in range(30 if ctx.quick else 300):
+    for _ in range(30 if ctx.quick else 200):
         units, topo = ShapeGen(ctx.rng).project()
         shape.append((units, topo))
     pyres = run_cpython([{"files": files_of(u), "modules": [x.qname for x in u], "sites": True} for u, _ in shape])
@@ -756,7 +756,7 @@ def run_reexport_sound(ctx: Ctx) -> None:
                 break
     compare_lines(ctx, "imports-build-shape", b_reqs, b_impl, b_pay)
     # --- the C07 scenarios (annotated variables dropped: the abstract syntax has no annotated assignment)
-    for _ in range(15 if ctx.quick else 150):
+    for _ in range(15 if ctx.quick else 100):
         units, meta = gen_project(ctx.rng)
         units2 = [Unit(u.qname, u.is_package, re.sub(r"(?m)^v_\w+: .*\n'''var'''\n", "", u.source), u.parent) for u in units]
         try:
@@ -768,7 +768,7 @@ def run_reexport_sound(ctx: Ctx) -> None:
         reqs.append("imports rsound " + " ".join(toks) + " O|- ? " + " ".join(",".join(map(str, o)) for o in ords))
         pay.append({"units": {u.qname: u.source for u in units2}, "orders": ords, "gen": "c07"})
     # --- BindGen with re-exports (mostly outside the shape: chains, star re-exports, packages as definers)
-    for _ in range(15 if ctx.quick else 150):
+    for _ in range(15 if ctx.quick else 100):
         g = BindGen(ctx.rng, class_imports=False, reexports=True, subclasses=True)
         units = g.project()
         try:
